@@ -405,16 +405,12 @@ class DisjunctionMaxMatcher(UnionMatcher):
         elif not b.is_active():
             return a.skip_to_quality(minquality)
 
-        skipped = 0
-        aq = a.block_quality()
-        bq = b.block_quality()
-        while a.is_active() and b.is_active() and max(aq, bq) <= minquality:
-            if aq <= minquality:
-                skipped += a.skip_to_quality(minquality)
-                aq = a.block_quality()
-            if bq <= minquality:
-                skipped += b.skip_to_quality(minquality)
-                bq = b.block_quality()
+        # The score of a document is the larger of the sub-matchers' scores,
+        # so each sub-matcher can independently skip what cannot reach the
+        # minimum quality. (Do not loop until the block qualities improve: a
+        # sub-matcher is allowed to stay where it is.)
+        skipped = a.skip_to_quality(minquality)
+        skipped += b.skip_to_quality(minquality)
         return skipped
 
 
